@@ -29,6 +29,7 @@ Record subapi_case := {
   sa_last : str; sa_etag : str; sa_body_last : str;   (* transport's last event id; ETag header; lastEventID field *)
   sa_inm_status : N;                          (* status with If-None-Match = last event id *)
   sa_inm_other : list (str * N);              (* (another If-None-Match value, status): stale validators *)
+  sa_head : list (bool * N);                  (* HEAD on a single-subscription URL: (the pair is listed, status) *)
   sa_tbl : tm_table;
   sa_auth : list (option (list str) * str * N) }.   (* caller's subscribe claim (None = no token), URL, status *)
 
@@ -43,6 +44,8 @@ Definition subapi_ok (c : subapi_case) : bool :=
     else N.eqb (ap_status p) 404) (sa_probes c) &&
   str_eqb (sa_etag c) (sa_last c) && str_eqb (sa_body_last c) (sa_last c) && N.eqb (sa_inm_status c) 304 &&
   forallb (fun p => N.eqb (snd p) (if str_eqb (fst p) (sa_last c) then 304 else 200)) (sa_inm_other c) &&
+  (* whatever the method: an unknown subscription is never answered as if it existed (HEAD may be refused outright) *)
+  forallb (fun p : bool * N => N.eqb (snd p) 405 || N.eqb (snd p) (if fst p then 200 else 404)) (sa_head c) &&
   forallb (fun a =>
     let '(claim, u, st) := a in
     let allowed := match claim with Some sels => can_receive (tmatch_of (sa_tbl c)) [u] sels | None => false end in
